@@ -402,6 +402,11 @@ func ForwardUses(v ssa.Value, fn func(user ssa.Instruction, via ssa.Value)) {
 			switch x := r.(type) {
 			case *ssa.Phi, *ssa.Convert, *ssa.ChangeType, *ssa.ChangeInterface, *ssa.MakeInterface, *ssa.TypeAssert, *ssa.Extract, *ssa.UnOp, *ssa.Field, *ssa.FieldAddr, *ssa.Slice, *ssa.Index, *ssa.IndexAddr, *ssa.BinOp:
 				visit(x.(ssa.Value))
+			case *ssa.Call:
+				// a wrapper around the value (io.MultiWriter(w, h), io.TeeReader(r, h)) carries it on
+				if pk := CalleePkgPath(&x.Call); pk == "io" {
+					visit(x)
+				}
 			case *ssa.Store:
 				// value stored into a local cell: follow loads of that cell
 				if x.Val == v {
@@ -411,6 +416,17 @@ func ForwardUses(v ssa.Value, fn func(user ssa.Instruction, via ssa.Value)) {
 								fn(ld, a)
 								visit(ld)
 							}
+						}
+					}
+					// element of a local array (variadic packing) or field of a local struct: the container carries the value
+					switch ad := x.Addr.(type) {
+					case *ssa.IndexAddr:
+						if a, ok := ad.X.(*ssa.Alloc); ok {
+							visit(a)
+						}
+					case *ssa.FieldAddr:
+						if a, ok := ad.X.(*ssa.Alloc); ok {
+							visit(a)
 						}
 					}
 				}
